@@ -14,6 +14,9 @@
  *   R name nt ncomp xdim ydim n v..    GR image, pixel interlace, n = xdim*ydim*ncomp
  *   V name nrec nf (fname nt order)*nf n v..   Vdata, full interlace, n = nrec*sum(order)
  *   E name                             empty Vgroup
+ *   D il xdim ydim n v..               24-bit raster added with DF24setil(il) + DF24addimage (v: pixel-major logical values,
+ *                                      n = xdim*ydim*3); B xdim ydim n v.. 8-bit raster added with DFR8addimage.  Both get
+ *                                      their refs from Htagnewref and are named "Raster Image #k" by the GR interface
  *   Z name nt rank d.. fill idx val    (mk only) SDS filled with one value, element idx set to val
  *   Q name nt ncomp xdim ydim fill idx val   (mk only) image filled with one value, element idx set to val
  *   W name nrec nf (fname nt order)*nf a b   (mk only) Vdata whose k-th scalar is (k*a+b) mod 127 (floats: that / 8)
@@ -243,6 +246,32 @@ static int do_mk(const char *desc, const char *out)
     CK(GRend(gr));
     CK(Vend(fid));
     CK(Hclose(fid));
+    /* pass 3: objects of the single-file raster interfaces (their refs come from Htagnewref) */
+    rewind(f);
+    while (fgets(line, sizeof line, f)) {
+        if (!split(line)) continue;
+        if (!strcmp(tok[0], "D")) {
+            int il = atoi(tok[1]), xd = atoi(tok[2]), yd = atoi(tok[3]), n = atoi(tok[4]);
+            unsigned char *b = (unsigned char *)calloc((size_t)n + 1, 1);
+            for (int y = 0; y < yd; y++)
+                for (int x = 0; x < xd; x++)
+                    for (int c = 0; c < 3; c++) {
+                        unsigned char v = (unsigned char)atoi(tok[5 + (y * xd + x) * 3 + c]);
+                        long pos = il == 0 ? ((long)y * xd + x) * 3 + c : il == 1 ? ((long)y * 3 + c) * xd + x : ((long)c * yd + y) * xd + x;
+                        b[pos] = v;
+                    }
+            CK(DF24setil(il));
+            CK(DF24addimage(out, b, xd, yd));
+            free(b);
+        }
+        else if (!strcmp(tok[0], "B")) {
+            int xd = atoi(tok[1]), yd = atoi(tok[2]), n = atoi(tok[3]);
+            unsigned char *b = (unsigned char *)calloc((size_t)n + 1, 1);
+            for (int i = 0; i < n; i++) b[i] = (unsigned char)atoi(tok[4 + i]);
+            CK(DFR8addimage(out, b, xd, yd, 0));
+            free(b);
+        }
+    }
     fclose(f);
     return 0;
 }
@@ -268,6 +297,7 @@ static int do_rd(const char *desc, const char *file)
     int32 gr = GRstart(fid);
     CK(gr);
     int32 sds = FAIL;
+    int32 nraster = 0;
     while (fgets(line, sizeof line, f)) {
         if (!split(line)) continue;
         if (!strcmp(tok[0], "G") || !strcmp(tok[0], "A")) {
@@ -299,8 +329,8 @@ static int do_rd(const char *desc, const char *file)
             printf("\n");
             free(b);
         }
-        else if (!strcmp(tok[0], "R") || !strcmp(tok[0], "Q")) {
-            int32 idx = GRnametoindex(gr, tok[1]);
+        else if (!strcmp(tok[0], "R") || !strcmp(tok[0], "Q") || !strcmp(tok[0], "D") || !strcmp(tok[0], "B")) {
+            int32 idx = (tok[0][0] == 'D' || tok[0][0] == 'B') ? nraster++ : GRnametoindex(gr, tok[1]);
             if (idx == FAIL) { printf("R %s missing\n", tok[1]); continue; }
             int32 ri = GRselect(gr, idx);
             char nm[H4_MAX_GR_NAME + 1]; int32 nc, nt, il, dims[2], na, start[2] = {0, 0};
@@ -309,6 +339,7 @@ static int do_rd(const char *desc, const char *file)
             unsigned char *b = (unsigned char *)calloc((size_t)n + 1, (size_t)ntsize(nt));
             CK(GRreqimageil(ri, MFGR_INTERLACE_PIXEL));
             CK(GRreadimage(ri, start, NULL, dims, b));
+            for (char *q = nm; *q; q++) if (*q == ' ') *q = '~';
             printf("R %s %d %d %d %d %ld", nm, (int)nt, (int)nc, (int)dims[0], (int)dims[1], n);
             for (long i = 0; i < n; i++) print_val(nt, b + (size_t)i * ntsize(nt));
             printf("\n");
